@@ -8,6 +8,7 @@ A unit is a template /verif/verus/<unit>.vrs: literal Verus text plus directives
   //@extract file=<src file> item="<header prefix>"    cut one item (struct/enum/type/const/fn) verbatim
   //@extract file=<src file> impl="<impl header>" fns=a,b [as=inherent] [rename=a:a2] [subst="T=f32"]
   //@extract file=<src file> modfn="<fn header prefix>"  free function, spec-able like impl fns
+        any //@extract may carry within="mod <name>": anchors are then searched only inside that inline module's braces
         followed, up to //@endextract, by optional blocks
   //@spec <fn>              requires/ensures/decreases text put between signature and body; the return value is named `r`
   //@loop <fn> <k>          invariant/decreases text put before the body of the k-th loop (textual order) of <fn>
@@ -638,10 +639,25 @@ def _split_top_angle(s):
     return out
 
 
+def restrict_to_module(src, header, what):
+    """Blank out (spaces, newlines kept) everything outside the braces of the inline module `header` (e.g. "mod foo")."""
+    hits = [h for h in _find_norm(src, header) if src[_line_start(src, h):h].strip() in ("", "pub", "pub(crate)")]
+    hits = [h for h in hits if re.match(r"\s*\{", src[h + len(_match_text(src, h, header)):])]
+    if len(hits) != 1:
+        raise Undecided("lost anchor: module %r matched %d times (%s)" % (header, len(hits), what))
+    b = src.find("{", hits[0])
+    e = match_brace(src, b)
+    return re.sub(r"[^\n]", " ", src[:b + 1]) + src[b + 1:e] + re.sub(r"[^\n]", " ", src[e:])
+
+
 def do_extract(ex, feats, rw, probe, tygroups):
     a = ex["args"]
     src = read(os.path.join(common.REPO, a["file"]))
     what = "%s line %d" % (a["file"], ex["line"])
+    if "within" in a:
+        # optional within="mod name": anchors are searched only in the body of that inline module (several inline
+        # modules of one file may define the same item names); text outside is blanked, newlines kept for line numbers
+        src = restrict_to_module(src, a["within"], what)
     substs = []
     for b in ex["blocks"]:
         if b["kind"] == "subst":
